@@ -25,8 +25,10 @@ import (
 	"archive/tar"
 	"bufio"
 	"bytes"
+	"compress/gzip"
 	"context"
 	"crypto/sha256"
+	"crypto/sha512"
 	"encoding/hex"
 	"encoding/json"
 	"flag"
@@ -45,10 +47,12 @@ import (
 
 	"github.com/regclient/regclient"
 	"github.com/regclient/regclient/pkg/archive"
+	"github.com/regclient/regclient/scheme"
 	"github.com/regclient/regclient/types/descriptor"
 	"github.com/regclient/regclient/types/manifest"
 	"github.com/regclient/regclient/types/mediatype"
 	v1 "github.com/regclient/regclient/types/oci/v1"
+	"github.com/regclient/regclient/types/platform"
 	"github.com/regclient/regclient/types/ref"
 	"github.com/regclient/regclient/zzverif/vtrace"
 )
@@ -74,6 +78,12 @@ type scn struct {
 	Place  string   `json:"place"`
 	Wm     string   `json:"wm"`
 	Chk    int      `json:"chk"`
+	Opt    string   `json:"opt"`
+	// secondary dimensions (PathSafe!SecondaryDims)
+	Odir string `json:"odir"`
+	Comp string `json:"comp"`
+	Hdr  string `json:"hdr"`
+	Pos  string `json:"pos"`
 }
 
 type change struct {
@@ -284,22 +294,40 @@ func rawHeader(w io.Writer, e tarEnt) {
 	}
 }
 
-func buildTar(ents []tarEnt) []byte {
+func buildTar(ents []tarEnt) []byte { return buildTarF(ents, "pax", "none") }
+
+// buildTarF writes the entries with the requested header format (pax | gnu | ustar; an entry the format cannot carry
+// falls back to PAX, then to hand-written header bytes) and compression (none | gzip).
+func buildTarF(ents []tarEnt, hdrFmt, comp string) []byte {
 	var buf bytes.Buffer
+	formats := []tar.Format{tar.FormatPAX}
+	switch hdrFmt {
+	case "gnu":
+		formats = []tar.Format{tar.FormatGNU, tar.FormatPAX}
+	case "ustar":
+		formats = []tar.Format{tar.FormatUSTAR, tar.FormatPAX}
+	}
 	for _, e := range ents {
 		var one bytes.Buffer
-		tw := tar.NewWriter(&one)
-		hdr := &tar.Header{Typeflag: e.kind, Name: e.name, Linkname: e.target, Mode: 0o755, Format: tar.FormatPAX}
-		if e.kind == tar.TypeReg {
-			hdr.Size = int64(len(e.body))
-			hdr.Mode = 0o644
-		}
-		err := tw.WriteHeader(hdr)
-		if err == nil && e.kind == tar.TypeReg {
-			_, err = tw.Write(e.body)
-		}
-		if err == nil {
-			err = tw.Flush()
+		var err error
+		for _, f := range formats {
+			one.Reset()
+			tw := tar.NewWriter(&one)
+			hdr := &tar.Header{Typeflag: e.kind, Name: e.name, Linkname: e.target, Mode: 0o755, Format: f}
+			if e.kind == tar.TypeReg {
+				hdr.Size = int64(len(e.body))
+				hdr.Mode = 0o644
+			}
+			err = tw.WriteHeader(hdr)
+			if err == nil && e.kind == tar.TypeReg {
+				_, err = tw.Write(e.body)
+			}
+			if err == nil {
+				err = tw.Flush()
+			}
+			if err == nil {
+				break
+			}
 		}
 		if err != nil || len(e.name) == 0 {
 			// the std writer refuses the name (NUL, empty): write the header bytes by hand
@@ -311,12 +339,19 @@ func buildTar(ents []tarEnt) []byte {
 		buf.Write(one.Bytes())
 	}
 	buf.Write(make([]byte, 1024))
+	if comp == "gzip" {
+		var z bytes.Buffer
+		zw := gzip.NewWriter(&z)
+		_, _ = zw.Write(buf.Bytes())
+		_ = zw.Close()
+		return z.Bytes()
+	}
 	return buf.Bytes()
 }
 
 // the fixed layer archive of artifact scenarios (PathSafe!LayerTar)
-func layerTar() []byte {
-	return buildTar([]tarEnt{
+func layerTar(hdrFmt, comp string) []byte {
+	return buildTarF([]tarEnt{
 		{tar.TypeDir, "d/", "", nil},
 		{tar.TypeReg, "d/f", "", []byte("layer file")},
 		{tar.TypeReg, "victim", "", []byte("OVERWRITTEN BY LAYER")},
@@ -326,7 +361,31 @@ func layerTar() []byte {
 		{tar.TypeReg, "../out-evil/f", "", []byte("file in sibling directory")},
 		{tar.TypeReg, "d/../../output.txt", "", []byte("sibling file behind d/..")},
 		{tar.TypeReg, "../victim", "", []byte("OVERWRITTEN BY LAYER 2")},
-	})
+	}, hdrFmt, comp)
+}
+
+// spelling of the designated directory as handed to the code under test (PathSafe!OutSpellings): the spelled path, the
+// working directory the operation runs in ("" = leave), further spellings of the same directory for the declaration
+type spelled struct {
+	path, cwd string
+	extra     []string
+}
+
+func spellOut(guard, out, odir string) spelled {
+	switch odir {
+	case "rel":
+		return spelled{path: "out", cwd: guard}
+	case "dot":
+		return spelled{path: ".", cwd: out}
+	case "slash":
+		return spelled{path: out + "/"}
+	case "vialink":
+		// a link of the user's own in a PARENT of the designated directory (the directory itself holds no links)
+		must(os.Symlink(".", filepath.Join(guard, "lnk")))
+		p := filepath.Join(guard, "lnk", "out")
+		return spelled{path: p, extra: []string{p}}
+	}
+	return spelled{path: out}
 }
 
 // ---------------------------------------------------------------- hand-written layouts
@@ -470,6 +529,11 @@ func hostileDigest(c, guard string, validFor string) string {
 		return "sha256:ab\x00cd"
 	case "dotenc":
 		return "sha256:.."
+	case "v512":
+		h := sha512.Sum512([]byte("no such blob"))
+		return "sha512:" + hex.EncodeToString(h[:])
+	case "shortenc":
+		return "sha256:abcd"
 	}
 	return c
 }
@@ -506,6 +570,7 @@ func (c claimed) GetDescriptor() descriptor.Descriptor { return c.d }
 // ---------------------------------------------------------------- scenario set-up: returns the operation
 
 type prepared struct {
+	cwd   string
 	op    func(ctx context.Context) error
 	allow []string
 	input string
@@ -518,13 +583,22 @@ func artifactManifest(l *layout, layers []descriptor.Descriptor, subject *descri
 		ArtifactType: "application/vnd.verif.c20", Config: eD, Layers: layers, Subject: subject}, mediatype.OCI1Manifest)
 }
 
-func prepArt(s scn, w *world, guard, out string) prepared {
+func prepArt(s scn, w *world, guard, out string, sp spelled) prepared {
 	src := filepath.Join(guard, "src")
 	home := filepath.Join(guard, "home")
 	must(os.MkdirAll(home, 0o777))
 	l := newLayout(src)
 	title := nameStr(s.Segs, s.Lead, s.Trail, guard)
-	lay := l.blob(layerTar(), "application/vnd.oci.image.layer.v1.tar")
+	mt := "application/vnd.oci.image.layer.v1.tar"
+	if s.Comp == "gzip" {
+		mt += "+gzip"
+	}
+	lay := l.blob(layerTar(s.Hdr, s.Comp), mt)
+	if s.Place == "layerdigest" {
+		// no title: the file name comes from the layer digest written in the manifest
+		lay.Digest = digest.Digest(hostileDigest(s.H, guard, string(lay.Digest)))
+		title = string(lay.Digest)
+	}
 	lay.Annotations = map[string]string{}
 	if !(len(s.Segs) == 0 && s.Lead == 0 && s.Trail == 0) {
 		lay.Annotations[annotTitle] = title // the empty name = no title annotation at all
@@ -532,17 +606,31 @@ func prepArt(s scn, w *world, guard, out string) prepared {
 	if s.Unpack == 1 {
 		lay.Annotations[annotUnpack] = "true"
 	}
-	l.tag(artifactManifest(l, []descriptor.Descriptor{lay}, nil), "hostile")
+	layers := []descriptor.Descriptor{lay}
+	if s.Pos == "first" || s.Pos == "second" {
+		ok := l.blob([]byte("benign layer"), "application/octet-stream")
+		ok.Annotations = map[string]string{annotTitle: "ok"}
+		if s.Pos == "first" {
+			layers = append(layers, ok)
+		} else {
+			layers = []descriptor.Descriptor{ok, lay}
+		}
+	}
+	l.tag(artifactManifest(l, layers, nil), "hostile")
 	l.save()
-	args := []string{"artifact", "get", "--output", out}
+	args := []string{"artifact", "get", "--output", sp.path}
 	if s.Strip == 1 {
 		args = append(args, "--strip-dirs")
 	}
 	args = append(args, "ocidir://"+src+":hostile")
+	dir := guard
+	if sp.cwd != "" {
+		dir = sp.cwd
+	}
 	return prepared{allow: []string{out, src}, input: title, op: func(ctx context.Context) error {
 		cmd := exec.CommandContext(ctx, w.regctl, args...)
 		cmd.Env = []string{"HOME=" + home, "PATH=/usr/bin:/bin", "TMPDIR=" + home}
-		cmd.Dir = guard
+		cmd.Dir = dir
 		var so, se bytes.Buffer
 		cmd.Stdout, cmd.Stderr = &so, &se
 		err := cmd.Run()
@@ -561,6 +649,8 @@ func kindByte(k string) byte {
 		return tar.TypeSymlink
 	case "hard":
 		return tar.TypeLink
+	case "fifo":
+		return tar.TypeFifo
 	}
 	return tar.TypeReg
 }
@@ -589,11 +679,11 @@ func entsToTar(s scn, guard string) ([]tarEnt, string) {
 	return tes, input
 }
 
-func prepTar(s scn, w *world, guard, out string) prepared {
+func prepTar(s scn, w *world, guard, out string, sp spelled) prepared {
 	tes, input := entsToTar(s, guard)
-	tb := buildTar(tes)
-	return prepared{allow: []string{out}, input: input, op: func(ctx context.Context) error {
-		return archive.Extract(ctx, out, bytes.NewReader(tb))
+	tb := buildTarF(tes, s.Hdr, s.Comp)
+	return prepared{allow: []string{out}, cwd: sp.cwd, input: input, op: func(ctx context.Context) error {
+		return archive.Extract(ctx, sp.path, bytes.NewReader(tb))
 	}}
 }
 
@@ -612,7 +702,7 @@ func readTar(b []byte) []tarEnt {
 	return out
 }
 
-func prepImp(s scn, w *world, guard, out string) prepared {
+func prepImp(s scn, w *world, guard, out string, sp spelled) prepared {
 	name := nameStr(s.Segs, s.Lead, s.Trail, guard)
 	base := readTar(w.exportTar)
 	var tes []tarEnt
@@ -695,9 +785,9 @@ func prepImp(s scn, w *world, guard, out string) prepared {
 	default:
 		return prepared{skip: "unknown import placement " + s.Place}
 	}
-	tb := buildTar(tes)
-	r := ref.Ref{Scheme: "ocidir", Path: out, Reference: "ocidir://" + out, Tag: "imported"}
-	return prepared{allow: []string{out}, input: input, op: func(ctx context.Context) error {
+	tb := buildTarF(tes, s.Hdr, s.Comp)
+	r := ref.Ref{Scheme: "ocidir", Path: sp.path, Reference: "ocidir://" + sp.path, Tag: "imported"}
+	return prepared{allow: []string{out}, cwd: sp.cwd, input: input, op: func(ctx context.Context) error {
 		rc := regclient.New()
 		err := rc.ImageImport(ctx, r, bytes.NewReader(tb))
 		errC := rc.Close(ctx, r)
@@ -716,7 +806,8 @@ func poison(dir, h string, w *world) {
 	l.tag(descriptor.Descriptor{MediaType: mediatype.OCI1Manifest, Digest: hd, Size: int64(len(w.m1Raw))}, "poison")
 	// tag "nest" -> index blob listing a child with the hostile digest
 	l.tag(l.jsonBlob(v1.Index{Versioned: v1.IndexSchemaVersion, MediaType: mediatype.OCI1ManifestList,
-		Manifests: []descriptor.Descriptor{{MediaType: mediatype.OCI1Manifest, Digest: hd, Size: int64(len(w.m1Raw))}}}, mediatype.OCI1ManifestList), "nest")
+		Manifests: []descriptor.Descriptor{{MediaType: mediatype.OCI1Manifest, Digest: hd, Size: int64(len(w.m1Raw)),
+			Platform: &platform.Platform{OS: "linux", Architecture: "amd64"}}}}, mediatype.OCI1ManifestList), "nest")
 	// tag "lyr" -> image manifest whose layer and config carry the hostile digest
 	l.tag(l.jsonBlob(v1.Manifest{Versioned: v1.ManifestSchemaVersion, MediaType: mediatype.OCI1Manifest,
 		Config: w.cfgD, Layers: []descriptor.Descriptor{{MediaType: mediatype.OCI1Layer, Digest: hd, Size: 6}}}, mediatype.OCI1Manifest), "lyr")
@@ -726,7 +817,7 @@ func poison(dir, h string, w *world) {
 	l.save()
 }
 
-func prepLay(s scn, w *world, guard, out string) prepared {
+func prepLay(s scn, w *world, guard, out string, sp spelled) prepared {
 	copyTree(w.tpl, out)
 	isTag := strings.HasPrefix(s.H, "tag_")
 	validFor := string(w.m1D.Digest)
@@ -739,7 +830,7 @@ func prepLay(s scn, w *world, guard, out string) prepared {
 	} else {
 		h = hostileDigest(s.H, guard, validFor)
 	}
-	r := ref.Ref{Scheme: "ocidir", Path: out, Reference: "ocidir://" + out}
+	r := ref.Ref{Scheme: "ocidir", Path: sp.path, Reference: "ocidir://" + sp.path}
 	allow := []string{out}
 	rc := regclient.New()
 	closeAfter := func(ctx context.Context, err error) error {
@@ -763,6 +854,12 @@ func prepLay(s scn, w *world, guard, out string) prepared {
 		}
 		if s.Place == "ref" || s.Place == "both" {
 			r.Digest = h
+		}
+		switch s.Opt {
+		case "size_zero":
+			d.Size = 0
+		case "size_wrong":
+			d.Size += 7
 		}
 		op = func(ctx context.Context) error {
 			var err error
@@ -800,6 +897,11 @@ func prepLay(s scn, w *world, guard, out string) prepared {
 		case "index":
 			poison(out, h, w)
 			r.Tag = "poison"
+		case "platform":
+			// the tag names a nested index whose only child (linux/amd64) carries the hostile digest
+			poison(out, h, w)
+			r.Tag = "nest"
+			opts = append(opts, regclient.WithManifestPlatform(platform.Platform{OS: "linux", Architecture: "amd64"}))
 		}
 		op = func(ctx context.Context) error {
 			var err error
@@ -881,7 +983,18 @@ func prepLay(s scn, w *world, guard, out string) prepared {
 		} else {
 			r.Digest = h
 		}
-		op = func(ctx context.Context) error { _, err := rc.ReferrerList(ctx, r); return closeAfter(ctx, err) }
+		ropts := []scheme.ReferrerOpts{}
+		if s.Place == "extsrc" {
+			// referrers are looked up in another layout (declared scratch)
+			src := filepath.Join(guard, "src")
+			copyTree(w.tpl, src)
+			allow = append(allow, src)
+			ropts = append(ropts, scheme.WithReferrerSource(ref.Ref{Scheme: "ocidir", Path: src, Reference: "ocidir://" + src}))
+		}
+		op = func(ctx context.Context) error {
+			_, err := rc.ReferrerList(ctx, r, ropts...)
+			return closeAfter(ctx, err)
+		}
 	case "Close":
 		poison(out, h, w)
 		body := []byte(fmt.Sprintf("unreferenced blob %d", s.ID))
@@ -902,6 +1015,14 @@ func prepLay(s scn, w *world, guard, out string) prepared {
 		rs := ref.Ref{Scheme: "ocidir", Path: src, Reference: "ocidir://" + src, Tag: "v1"}
 		rt := r.SetTag("copy")
 		opts := []regclient.ImageOpts{}
+		switch s.Opt {
+		case "referrers":
+			opts = append(opts, regclient.ImageWithReferrers())
+		case "digesttags":
+			opts = append(opts, regclient.ImageWithDigestTags())
+		case "force":
+			opts = append(opts, regclient.ImageWithForceRecursive())
+		}
 		switch s.Place {
 		case "srcindex":
 			poison(src, h, w)
@@ -935,7 +1056,7 @@ func prepLay(s scn, w *world, guard, out string) prepared {
 	default:
 		return prepared{skip: "unknown layout op " + s.Op}
 	}
-	return prepared{op: op, allow: allow, input: h}
+	return prepared{op: op, cwd: sp.cwd, allow: allow, input: h}
 }
 
 func runScenario(ctx context.Context, s scn, w *world, root string, emit func(fact)) fact {
@@ -954,18 +1075,20 @@ func runScenario(ctx context.Context, s scn, w *world, root string, emit func(fa
 		must(os.WriteFile(far, []byte("FAR VICTIM"), 0o666))
 	}
 	var p prepared
+	sp := spellOut(guard, out, s.Odir)
 	switch s.Ep {
 	case "art":
-		p = prepArt(s, w, guard, out)
+		p = prepArt(s, w, guard, out, sp)
 	case "tar", "lnk":
-		p = prepTar(s, w, guard, out)
+		p = prepTar(s, w, guard, out, sp)
 	case "imp":
-		p = prepImp(s, w, guard, out)
+		p = prepImp(s, w, guard, out, sp)
 	case "lay":
-		p = prepLay(s, w, guard, out)
+		p = prepLay(s, w, guard, out, sp)
 	default:
 		p = prepared{skip: "unknown entry point " + s.Ep}
 	}
+	p.allow = append(p.allow, sp.extra...)
 	f := fact{ID: s.ID, Guard: guard, Out: out, Allow: p.allow, Input: hex.EncodeToString([]byte(p.input)), Victim: 1, Changes: []change{}}
 	if p.skip != "" || p.op == nil {
 		f.Skipped = p.skip
@@ -979,6 +1102,9 @@ func runScenario(ctx context.Context, s scn, w *world, root string, emit func(fa
 	pre := f
 	pre.Pre = 1
 	emit(pre)
+	if p.cwd != "" {
+		must(os.Chdir(p.cwd))
+	}
 	marker(s.ID, "op-begin")
 	func() {
 		defer func() {
@@ -994,6 +1120,9 @@ func runScenario(ctx context.Context, s scn, w *world, root string, emit func(fa
 		}
 	}()
 	marker(s.ID, "op-end")
+	if p.cwd != "" {
+		must(os.Chdir("/"))
+	}
 	after := snapshot(root, guard)
 	f.Changes = diff(before, after)
 	if b, err := os.ReadFile(victim); err != nil || !bytes.Equal(b, vbytes) {
